@@ -184,6 +184,19 @@ mut("c16_f8_revert", "src/tools/blob_writer.rs", "        if record.header.blob_
 mut("c16_validate_skips_last", "src/tools/validation.rs", "    while !reader.is_eof() {\n        reader.read_record(false)?;\n    }\n    Ok(())", "    while !reader.is_eof() {\n        if reader.read_record(false).is_err() && reader.is_eof() { break; }\n    }\n    Ok(())", ["C16"], "validate_blob tolerates a damaged last record")
 mut("c16_migrate_drops_markers", "src/tools/utils.rs", "            Ok(record) => {\n                writer.write_record(record)?;\n                count += 1;", "            Ok(record) => {\n                if !(source_version == 0 && record.header().is_deleted()) { writer.write_record(record)?; }\n                count += 1;", ["C16"], "v0->v1 migration drops deletion markers")
 mut("c16_collector_counts_keys", "src/tools/collectors.rs", "    fn add_record(&mut self, record: Record) {\n        self.records += 1;", "    fn add_record(&mut self, record: Record) {\n        self.records = self.keys.len() + 1;", ["C16"], "BlobSummaryCollector counts unique keys instead of records")
+# ---- C17
+mut("c17_hasher_keys", "src/filter/bloom.rs", "AHasher::new_with_keys((i + 1) as u128, (i + 2) as u128)", "AHasher::new_with_keys((i + 2) as u128, (i + 3) as u128)", ["C17"], "self-consistent change of the bloom hash seeds")
+mut("c17_block_size", "src/blob/index/bptree/core.rs", "pub(super) const BLOCK_SIZE: usize = 4096;", "pub(super) const BLOCK_SIZE: usize = 2048;", ["C17"], "self-consistent change of the B+tree block size")
+mut("c17_record_field_order", "src/record/record.rs", "    flags: u8,\n    blob_offset: u64,\n    timestamp: u64,", "    blob_offset: u64,\n    flags: u8,\n    timestamp: u64,", ["C17"], "self-consistent change of the record header layout")
+mut("c17_range_field_order", "src/filter/range.rs", """    #[serde(serialize_with = "serialize_key", deserialize_with = "deserialize_key")]
+    min: K,
+    #[serde(serialize_with = "serialize_key", deserialize_with = "deserialize_key")]
+    max: K,""", """    #[serde(serialize_with = "serialize_key", deserialize_with = "deserialize_key")]
+    max: K,
+    #[serde(serialize_with = "serialize_key", deserialize_with = "deserialize_key")]
+    min: K,""", ["C17"], "self-consistent change of the range filter layout")
+mut("c17_blob_version_unchecked", "src/blob/header.rs", "        if self.version != BLOB_VERSION {", "        if false && self.version != BLOB_VERSION {", ["C17"], "blob format version no longer validated")
+mut("c17_bit_order", "src/filter/atomic_bitvec.rs", "        let mask = 1u64 << (bit_index % Self::ITEM_BITS_SIZE);", "        let mask = 1u64 << (63 - bit_index % Self::ITEM_BITS_SIZE);", ["C17", "C10"], "bit order inside the 64-bit words reversed (in-memory only: off-loaded probing disagrees)")
 # ---- fixes reverted (monitors must still fire)
 mut("f1_worker_panic", "src/storage/observer_worker.rs", """                    error!("ObserverWorker error, request skipped: {:?}", err);""", """                    panic!("ObserverWorker unexpected error: {:?}", err);""", ["C13", "C04"], "reverts fix F1")
 mut("f2_restore_no_load", "src/storage/core.rs", """                if let Err(e) = blob.load_index().await {
